@@ -239,6 +239,67 @@ def check_dalitz(ctx: Check, tree: Tree) -> None:
                     None if ok else {"got": repr(got)[:300], "symbol": repr(s)})
 
 
+def check_names_structural(ctx: Check, tree: Tree) -> None:
+    """R-LITERALID: the name of a kinematic variable is a function of the topology's structure.
+    Nothing reachable from the naming / producing functions compares a state, edge or node id with
+    an integer literal (qrules numbers the initial state -1 by default, but relabelled topologies -
+    the library's own relabel_edge_ids for the DPD alignment, user permutations - use other ids; the
+    initial edge is `topology.incoming_edge_ids`)."""
+    from ..rules import literal_id_comparisons
+
+    roots = ["ampform.helicity.naming::get_helicity_angle_symbols", "ampform.helicity.naming::get_boost_chain_suffix",
+             f"{LOR}::get_invariant_mass_symbol", f"{ANG}::compute_helicity_angles", f"{LOR}::compute_invariant_masses"]
+    graph = tree.call_graph()
+    reach: set[str] = set()
+    for r in roots:
+        if r not in tree.funcs:
+            raise AnalysisError(f"vanished anchor: {r}")
+        reach |= tree.reachable(r, graph)
+    reach = {q for q in reach if q in tree.funcs}
+    hits, _ = literal_id_comparisons(tree, ("ampform.",))
+    tops = set()
+    for q in reach:
+        f = tree.funcs[q]
+        while f.outer is not None:
+            f = f.outer
+        tops.add(f.qual)
+    bad = [h for h in hits if h["fn"].qual in tops]
+    for h in bad:
+        ctx.violation("R-LITERALID", f"{h['fn'].qual}::{canon_cmp(h['node'])}", tree.loc(h["node"]),
+                      f"{h['fn'].qual}: `{unparse(h['node'])}` compares an id with the literal {h['literal']} on the path that names / computes kinematic variables",
+                      "for a relabelled topology (initial state not -1) the names differ from the documented ones and no longer describe the quantity that is computed")
+    if len(reach) < 8:
+        raise AnalysisError(f"only {len(reach)} functions reachable from the naming / producing functions (call graph degraded)")
+    if not bad:
+        ctx.ok("R-LITERALID", "src/ampform/helicity/naming.py", f"{len(reach)} functions reachable from the naming and producing functions of kinematic variables: no comparison of an id with an integer literal")
+
+
+def canon_cmp(node: ast.AST) -> str:
+    import re
+
+    return re.sub(r"\s+", "", unparse(node))[:60]
+
+
+def check_adapter_memo(ctx: Check, tree: Tree) -> None:
+    """R-MEMO: if HelicityAdapter keeps a lazily computed attribute (`if self.A is None: self.A = ...`)
+    that is derived from other attributes (the registered topologies), every method that changes
+    such an input resets the attribute - otherwise create_expressions() keeps answering for the
+    topologies of an earlier registration state."""
+    from ..rules import memo_invalidation
+
+    cls_q = "ampform.kinematics::HelicityAdapter"
+    if cls_q not in tree.classes:
+        raise AnalysisError("vanished anchor: HelicityAdapter")
+    rows = memo_invalidation(tree, cls_q)
+    if not rows:
+        ctx.ok("R-MEMO", tree.loc(tree.classes[cls_q].node), "HelicityAdapter keeps no lazily computed attribute: create_expressions() always reflects the registered topologies")
+        return
+    for r in rows:
+        ctx.verdict(r["resets"], "R-MEMO", f"{r['writer'].qual}::stale `{r['memo']}`", tree.loc(r["writer"].node),
+                    f"{r['writer'].qual} changes {r['touched']} and resets the memo `{r['memo']}` computed in {r['computed_in'].name}",
+                    None if r["resets"] else f"`{r['memo']}` is derived from {r['touched']} but survives this change: later calls of {r['computed_in'].name}() miss the variables of the new topologies")
+
+
 def run(ctx: Check, tree: Tree) -> None:
     ctx.decided += [
         "R-PROV over every producer merged by HelicityAdapter.create_expressions: key identity reaches the value (names are a function of final-state ids only, so equal names then carry equal quantities across topologies)",
@@ -246,6 +307,7 @@ def run(ctx: Check, tree: Tree) -> None:
     ]
     ctx.decided += [
         "R-FRAME: the helicity frame of a decaying child is BoostZ(|P|/E) RotationY(-Theta(P)) RotationZ(-Phi(P)) of the child's summed momentum P, applied to the pooled momenta; the recursion descends with that boosted pool",
+        "R-LITERALID: nothing on the naming / producing path compares an id with an integer literal; R-MEMO: a lazily computed attribute of HelicityAdapter is reset by every method that changes its inputs",
         "R-POOL: within one activation all momenta are read from the handed-in pool; it is never rebound or written (siblings do not see each other's frames)",
         "R-TERM (Dalitz): formulate_scattering_angle(i, j) equals acos of the (ij)-rest-frame geometry in Dalitz variables for all six ordered pairs, spectator = the third particle",
     ]
@@ -259,3 +321,5 @@ def run(ctx: Check, tree: Tree) -> None:
     ctx.section(check_frame, ctx, tree)
     ctx.section(check_pool, ctx, tree)
     ctx.section(check_dalitz, ctx, tree)
+    ctx.section(check_names_structural, ctx, tree)
+    ctx.section(check_adapter_memo, ctx, tree)
